@@ -30,7 +30,7 @@ ASSUMPTIONS = ["programs are straight-line (no loops), so the expected log is co
 CASES = {"quick": 250, "thorough": 6000}
 NSHARDS = 16
 
-CONSTRUCTS = ["new", "old", "none", "disabled", "dataclass", "method", "classmethod", "staticmethod", "property", "with", "recursion", "generator", "coroutine", "nonbinding"]
+CONSTRUCTS = ["new", "unannotated", "old", "none", "disabled", "dataclass", "method", "classmethod", "staticmethod", "property", "with", "recursion", "generator", "coroutine", "nonbinding"]
 EXITS = ["return", "Exception", "KeyboardInterrupt", "GeneratorExit", "SystemExit"]
 RAISE = {"Exception": "raise ValueError('x')", "KeyboardInterrupt": "raise KI()", "GeneratorExit": "raise GeneratorExit()", "SystemExit": "raise SE(3)"}
 
@@ -201,7 +201,7 @@ class Gen:
 
         if self.disabled and c == "recursion":
             c = "new"
-        NEW_STYLE = ("new", "dataclass", "method", "classmethod", "staticmethod", "property")
+        NEW_STYLE = ("new", "unannotated", "dataclass", "method", "classmethod", "staticmethod", "property")
 
         def framed(bind_ind, bind_p, n):
             if self.disabled and c in NEW_STYLE:
@@ -223,6 +223,12 @@ class Gen:
             self.pairs.add(("nonbinding", "TypeError"))
             return self.call_site(ind, i, self.rng.choice((f"f_{i}()", f"f_{i}(A(2), 1, 2)", f"f_{i}(A(2), n=1, z=3)")), "TypeError", depth)
         self.pairs.add((c, ex))
+        if c == "unannotated":
+            # no annotation anywhere: still a jaxtyped call, so still a context of its own
+            self.emit(ind, f"@jaxtyped(typechecker={tc})")
+            self.emit(ind, f"def f_{i}(x, n):")
+            prop = framed(ind + 1, False, nval)
+            return self.call_site(ind, i, f"f_{i}(A({size}), {nval})", prop, depth)
         if c in ("new", "old", "none"):
             if c == "new":
                 self.emit(ind, f"@jaxtyped(typechecker={tc})")
